@@ -51,6 +51,8 @@ pub fn run(stdout: &mut StandardStream, hy_opt: &HyeongOption) -> Result<(), Err
         running.store(false, Ordering::SeqCst);
 
         if input == *"" {
+            #[cfg(hyeong_verif)]
+            crate::util::verif::exit("interpreter_eof", 0);
             process::exit(0);
         }
 
@@ -100,6 +102,8 @@ pub fn run(stdout: &mut StandardStream, hy_opt: &HyeongOption) -> Result<(), Err
             }
 
             "exit" => {
+                #[cfg(hyeong_verif)]
+                crate::util::verif::exit("interpreter_exit", 0);
                 process::exit(0);
             }
 
